@@ -13,6 +13,7 @@ import (
 	"github.com/f1bonacc1/process-compose/src/admitter"
 	"github.com/f1bonacc1/process-compose/src/app"
 	"github.com/f1bonacc1/process-compose/src/loader"
+	"github.com/f1bonacc1/process-compose/src/pclog"
 	"github.com/f1bonacc1/process-compose/src/types"
 	"github.com/rs/zerolog"
 
@@ -99,6 +100,7 @@ type runCtx struct {
 	sweepSem       *simsync.Sem
 	sweepCancelled *bool
 	sc       *Scenario
+	subs     map[string]*pclog.Connector
 	launches map[string]int
 	runner   *app.ProjectRunner
 	proj     app.IProject
@@ -359,7 +361,12 @@ func RunScenario(t *testing.T, sc *Scenario, tape []int32) *RunResult {
 		simlog.Add(simlog.Event{Kind: "run.end"})
 		obsSem.Post()
 	}
-	func() {
+	// synctest.Test ends the calling goroutine (FailNow) when the race detector reported
+	// something during the bubble; run it on a goroutine of its own so that the worker
+	// carries on with the next run.
+	bubbleDone := make(chan struct{})
+	go func() {
+		defer close(bubbleDone)
 		defer func() {
 			if r := recover(); r != nil {
 				res.BubbleErr = fmt.Sprint(r)
@@ -369,6 +376,7 @@ func RunScenario(t *testing.T, sc *Scenario, tape []int32) *RunResult {
 			res.Out = simsync.Execute(cfg, body)
 		})
 	}()
+	<-bubbleDone
 	// read back log files
 	res.Files = map[string]string{}
 	if ents, err := os.ReadDir(tmp); err == nil {
@@ -457,6 +465,28 @@ func (rc *runCtx) doOp(op *Op) (any, error) {
 		return p.GetProcessLog(op.Arg, op.N, op.M)
 	case "projstate":
 		return p.GetProjectState(false)
+	case "names":
+		return p.GetLexicographicProcessNames()
+	case "loglen":
+		return p.GetLogLength(), nil
+	case "subscribe":
+		n := 0
+		conn := pclog.NewConnector(func(lines []string) { n += len(lines) }, func(s string) (int, error) { n++; return len(s), nil }, op.N)
+		if rc.subs == nil {
+			rc.subs = map[string]*pclog.Connector{}
+		}
+		err := p.GetLogsAndSubscribe(op.Arg, conn)
+		if err == nil {
+			rc.subs[op.Arg] = conn
+		}
+		return nil, err
+	case "unsubscribe":
+		conn := rc.subs[op.Arg]
+		if conn == nil {
+			return nil, nil
+		}
+		delete(rc.subs, op.Arg)
+		return nil, p.UnSubscribeLogger(op.Arg, conn)
 	case "update":
 		if op.N >= len(rc.sc.Updates) {
 			return nil, fmt.Errorf("harness: no update %d", op.N)
